@@ -53,13 +53,14 @@ FullOps == {"copy", "slice", "stack", "subset", "renamevar", "renamedim", "renam
 \* arguments as the operation sees them (fuzzy addressing of the string forms)
 ArgsOf(e, f) == CASE e.act = "apply" -> FzApply(f, e.args)
                   [] e.act = "slice" -> FzSlice(f, e.args)
+                  [] e.act = "stack" -> IF "defaultdim" \in DOMAIN e.args THEN [e.args EXCEPT !.dim = DefaultStackDim(f)] ELSE e.args
                   [] OTHER -> e.args
 InDomain(e, hp) ==
   LET f == hp[e.src] a == ArgsOf(e, f) IN
   CASE e.act = "copy" -> Dom_copy(f, a)
     [] e.act = "slice" -> Dom_slice(f, a)
     [] e.act = "apply" -> Dom_apply(f, a)
-    [] e.act = "stack" -> Dom_stack(Files(hp, <<e.src>> \o e.others), a)
+    [] e.act = "stack" -> a.dim # "" /\ Dom_stack(Files(hp, <<e.src>> \o e.others), a)
     [] e.act = "subset" -> Dom_subset(f, a)
     [] e.act = "renamevar" -> Dom_renamevar(f, a)
     [] e.act = "renamedim" -> Dom_renamedim(f, a)
@@ -128,8 +129,10 @@ TStep ==
              /\ (target # 0 => ChkS(tr, l + 1, "written object no longer well-formed", WFDiag(post[target])))
         ELSE IF e.res = "raised"
         THEN /\ ChkT(tr, l + 1, "failed call created an object", Len(post) = Len(heap))
-             /\ ChkS(tr, l + 1, "C01 " \o e.act \o ": call with in-domain arguments raised",
-                     IF EnfWF /\ InDomain(e, heap) THEN e.exc ELSE "")
+             \* (C01 for every operation; C02-C06 for their own operations: a call
+             \* that raises cannot yield the specified result)
+             /\ ChkS(tr, l + 1, (IF EnfWF THEN "C01 " ELSE e.prop \o " ") \o e.act \o ": call with in-domain arguments raised",
+                     IF (EnfWF \/ (EnfVAL /\ EnfProp \in {"*", e.prop})) /\ InDomain(e, heap) THEN e.exc ELSE "")
         ELSE LET g == post[e.new] IN
              /\ ChkT(tr, l + 1, "new object id", e.new = Len(heap) + 1 /\ Len(post) = e.new)
              /\ ChkS(tr, l + 1, "C01 " \o e.act \o ": result not well-formed", IF EnfWF THEN WFDiag(g) ELSE "")
